@@ -79,8 +79,11 @@ def vtable_oracle(c, out):
 
 def run(ctx):
     ths = proof_stage(ctx)
-    if ths is None:
-        finish(ctx, [])
+    proof_broken = ths is None
+    if proof_broken:
+        # a proof obligation broke (already reported, no-failing-input-found): still search the implementation for a concrete
+        # history on which a reset builder differs from a fresh one (oracle: fresh C builder; the model is not consulted)
+        ths = []
     # release semantics (NDEBUG): the `check(...)` asserts on emitter / allocator failure are compiled out, as in a deployed library
     rt = build_runtime_objs(ctx, tag="rtnd", extra_defs=("-DNDEBUG",))
     h_build = build_harness(ctx, "h_build", [os.path.join(VERIF, "harness/h_build.c")], rt, defs=("-DNDEBUG",))
@@ -98,6 +101,7 @@ def run(ctx):
     rc, a_c, err_a = run_parallel(h_build, alines, 8)
     rc, a_m, _ = run_parallel(FMODEL, alines, 8)
     aidx, a_c, a_m = diff_streams(alines, a_c, a_m)
+    if proof_broken: aidx = []
     # --- histories
     nblocks = 24 if quick else 160
     cycles = 4 if quick else 40
@@ -146,6 +150,19 @@ def run(ctx):
     kl = c02.build_line(kcase, 0)
     blocks.append(["fresh 1", "opt 0 0", "reset 0", kl]); plan.append([None, None, None, ("build", kcase, 0, 1, 0, 0)])
     fresh_lines.setdefault((1, "opt 0 0", kl), None)
+    # abandoned inside a (doubly) nested buffer, reset, then a build whose children precede the top-level buffer
+    ptabs = [[F(0, 0, "s", 4, 4), F(1, 0, "str"), F(2, 0, "t", 0), F(3, 0, "t", 1)], [F(0, 0, "s", 8, 8), F(1, 0, "str")]]
+    pt1 = N("T", ti=1, fields=[(ptabs[1][0], N("i", size=8, align=8, data=b"\x01" * 8)), (ptabs[1][1], N("s", data=b"in"))])
+    pt0 = N("T", ti=0, fields=[(ptabs[0][0], N("i", size=4, align=4, data=b"\x02\0\0\0")), (ptabs[0][1], N("s", data=b"a"))])
+    ptree = N("T", ti=0, fields=[(ptabs[0][0], N("i", size=4, align=4, data=b"\x03\0\0\0")), (ptabs[0][2], pt0), (ptabs[0][3], pt1)])
+    pcase = dict(tables=ptabs, unions=[], root=("t", 0), tree=ptree, flags=8, ident="-", ba=0, toks=" ".join(vtree.render(ptree)), si=-2)
+    pl = c02.build_line(pcase, 0)
+    for depth in (1, 2):
+        for red in (0, 1):
+            nest = "T 1 3 " + "B - 0 0 T 1 3 " * depth + "T 1 1 s 61"
+            lines = ["fresh 1", "opt 0 0", "reset %d" % red, "partial %d 0 - 0 1 %s" % (3 + 3 * depth, nest), "reset %d" % red, pl, "reset %d" % red, pl]
+            blocks.append(lines); plan.append([None] * 5 + [("build", pcase, 0, 1, 0, 0), None, ("build", pcase, 0, 1, 0, 0)])
+    fresh_lines.setdefault((1, "opt 0 0", pl), None)
     rc, out, err = run_blocks(h_build, blocks, 16, sticky="fresh ")
     flat = [l for b in blocks for l in b]
     finfo = [x for p in plan for x in p]
@@ -176,7 +193,7 @@ def run(ctx):
             ref = fres[(custom, "opt %d %d" % (limit, maxlevel), l)]
             if core(o) != core(ref):
                 spec.append((i, "after reset the builder produces %s, a fresh builder %s" % (core(o)[:120], core(ref)[:120])))
-            elif limit == 0 and maxlevel == 0 and core(o) != core(mres[l]):
+            elif (not proof_broken) and limit == 0 and maxlevel == 0 and core(o) != core(mres[l]):
                 corr.append(i)
     # each distinct vtable once per buffer (no cache limit): on the first post-reset build of every round
     vt_known, vt_bad, seen_vt = [], [], set()
